@@ -1,4 +1,5 @@
 import BU.Properties.C13
+import BU.Properties.C13_Gen
 #print axioms C13.copyTx_fresh
 #print axioms C13.copyTxIn_fresh
 #print axioms C13.copyTxOut_fresh
@@ -12,3 +13,4 @@ import BU.Properties.C13
 #print axioms C13.legacy_digest_value
 #print axioms C13.digests_depend_on_skeleton
 #print axioms C13.order_independent
+#print axioms C13Gen.gen_digests_depend_on_skeleton
